@@ -172,6 +172,33 @@ def check_plan(r, w, plan, final, tags):
             if multi:
                 r.nontrivial = True
             r.outcome("joint-steps-%d-for-%d" % (len(joint), len(plan)))
+            if layout == "bare" and len(plan) >= 2 and not check_reuse(r, w, plan, path, constraint, joint, t):
+                return False
+    return True
+
+
+def check_reuse(r, w, plan, path, constraint, joint, t):
+    """one converter per world, kept for the whole run; before each plan it converts the plan's tail for a problem of
+    the same name whose initial state is the state after the plan's first action.  It must then convert the plan for
+    the real problem exactly as a fresh converter does (that result was judged above)."""
+    import re
+    from pddl_plus_parser.multi_agent import PlanConverter
+    from ..bridge import problem_text
+    conv = w.__dict__.setdefault("_shared_converter", PlanConverter(w.D))
+    pname = re.search(r"\(problem ([^)\s]+)\)", w.ptext).group(1)
+    s0 = w.RP.state()
+    mid = successor(w.S, w.S.actions[plan[0][0]], tuple(plan[0][1:]), s0, w.objs)
+    decoy = parse_problem(problem_text(w.S.name, w.RP.objects, mid, name=pname), w.D)
+    decoy_path = write_tmp("\n".join("(" + " ".join(s) + ")" for s in plan[1:]) + "\n", ".plan2")
+    guard(lambda: conv.convert_plan(decoy, decoy_path, list(w.agents), constraint))
+    res = guard(lambda: conv.convert_plan(parse_problem(w.ptext, w.D), path, list(w.agents), constraint))
+    r.count("histories", 2)
+    joint2 = res if isinstance(res, Raised) else [[[a.name] + list(a.parameters) for a in ja.actions] for ja in res]
+    if joint2 != joint:
+        r.fail("converter-reuse", f"[constraint={constraint}] plan {plan}: a converter that earlier converted {plan[1:]} for a "
+               f"problem of the same name starting in {mid.to_json()} gives {joint2}; a fresh converter gives {joint}",
+               joint, str(joint2), tags=t + ["reuse"])
+        return False
     return True
 
 
